@@ -99,7 +99,9 @@ def check_sizing(repo, rep):
             rep.instance(rid, f"risk_to_qty|{side}|capped|{fee_case}", {"value": repr(out.value)})
     # limit_stop_loss and estimate_risk
     for typ in ("long", "short"):
-        for case, smp in (("within", {"e": F(100), "s": F(97) if typ == "long" else F(103), "pct": F(5)}), ("limited", {"e": F(100), "s": F(80) if typ == "long" else F(120), "pct": F(5)})):
+        for case, smp in (("within", {"e": F(100), "s": F(97) if typ == "long" else F(103), "pct": F(5)}), ("limited", {"e": F(100), "s": F(80) if typ == "long" else F(120), "pct": F(5)}),
+                          # an allowed risk of 0 % (a falsy number): the stop is pulled in to the entry price - not left where it was
+                          ("limited", {"e": F(100), "s": F(80) if typ == "long" else F(120), "pct": F(0)})):
             outs = W.run_function(repo, UTILS, "limit_stop_loss", lambda it: ([A("e"), A("s"), typ, A("pct")], {}), samples=[smp], nonneg={"e", "s", "pct"})
             for out in outs:
                 risk = (A("e") - A("s")) if typ == "long" else (A("s") - A("e"))
@@ -108,7 +110,7 @@ def check_sizing(repo, rep):
                 want = (A("e") - eff) if typ == "long" else (A("e") + eff)
                 if out.kind != "return" or not (isinstance(out.value, R) and out.value.same(want)):
                     rep.violation(rid, f"limit_stop_loss|{typ}|{case}", f"limit_stop_loss({typ}, {case}) = {out.value!r}, expected {want!r}")
-                rep.instance(rid, f"limit_stop_loss|{typ}|{case}", {"value": repr(out.value)})
+                rep.instance(rid, f"limit_stop_loss|{typ}|{case}|pct={smp['pct']}", {"value": repr(out.value)})
     for smp, want in (({"e": F(10), "s": F(8)}, A("e") - A("s")), ({"e": F(8), "s": F(10)}, A("s") - A("e"))):
         for out in W.run_function(repo, UTILS, "estimate_risk", lambda it: ([A("e"), A("s")], {}), samples=[smp]):
             if out.kind != "return" or not (isinstance(out.value, R) and out.value.same(want)):
